@@ -35,6 +35,8 @@
 (*   Seek0       BReader.Seek(0, io.SeekStart) -> Resp.Seek (re-request    *)
 (*               when readCur # 0, retryCount--) / File.Seek /             *)
 (*               bytes.Reader.Seek; reset of LimitRead, digester, readBytes*)
+(*   Tell        BReader.Seek(0, io.SeekCurrent): position = readBytes      *)
+(*   SeekBad     BReader.Seek elsewhere: refused without side effect        *)
 (*   Stop        the caller stops after an end (clean or error)            *)
 (*   via tar*    types/blob/reader.go:ToTarReader hands BReader.reader     *)
 (*               (Tee(LimitRead(src))) to types/blob/tar.go:NewTarReader;  *)
@@ -76,7 +78,8 @@ CONSTANTS
   Chunks,      \* max units one body read returns (1 = byte-wise source, Big = all)
   LyingSizes,  \* BOOLEAN: also descriptors whose size contradicts the digest
   InlineData,  \* BOOLEAN: also descriptors with an inline Data field
-  Conc         \* config.Host.ReqConcurrent of the registry (regclient's default is 3)
+  Conc,        \* config.Host.ReqConcurrent of the registry (regclient's default is 3)
+  Probes       \* BOOLEAN: the caller may also ask for its position / try an arbitrary seek
 
 VARIABLES
   scn,       \* the scenario: descriptor, stored content, scheme, access path (constant)
@@ -284,6 +287,18 @@ Seek0 ==
           /\ ResetReader
           /\ UNCHANGED <<readCur, retry, pc, why>>
 
+\* BReader.Seek(0, io.SeekCurrent): reports readBytes, changes nothing (reader.go:138)
+Tell ==
+  /\ Probes /\ pc = "ready" /\ scn.via = "reader" /\ ret.op \notin {"tell", "seekbad"}
+  /\ ret' = R("tell", rbytes, "none")
+  /\ UNCHANGED <<scn, pc, why, pend, src, tvars, rvars, got, cst, seeks, again>>
+
+\* BReader.Seek to any other position: refused, changes nothing (reader.go:142)
+SeekBad ==
+  /\ Probes /\ pc = "ready" /\ scn.via = "reader" /\ ret.op \notin {"tell", "seekbad"}
+  /\ ret' = R("seekbad", rbytes, "error")
+  /\ UNCHANGED <<scn, pc, why, pend, src, tvars, rvars, got, cst, seeks, again>>
+
 Stop ==
   /\ pc = "ready" /\ cst # "reading"
   /\ pc' = "stopped"
@@ -372,7 +387,7 @@ ServeOK(r) ==
 ReadAny == \E k \in KS : Read(k)
 ServeErrAny == \E kind \in {"neterr", "http500", "http404"} : ServeErr(kind)
 ServeOKAny == \E r \in Replies : ServeOK(r)
-Next == Open \/ ReadAny \/ Seek0 \/ Stop \/ GiveUp \/ ServeErrAny \/ ServeOKAny
+Next == Open \/ ReadAny \/ Seek0 \/ Tell \/ SeekBad \/ Stop \/ GiveUp \/ ServeErrAny \/ ServeOKAny
 
 Done == pc = "stopped"
 Spec == Init /\ [][Next]_vars
